@@ -241,8 +241,22 @@ func sequentialCase(idx int64, r *rand.Rand) {
 		}
 		if r.IntN(5) < 3 {
 			k := ly.keys[r.IntN(len(ly.keys))]
-			l, ok := ly.lim.Acquire(keyCtx(k))
-			ops = append(ops, fmt.Sprintf("acquire(%q)=%v", k, ok))
+			actx, how := keyCtx(k), ""
+			switch r.IntN(8) {
+			case 0: // a context whose deadline has already passed, or that is cancelled: the default limiter gates on capacity only,
+				// and whatever it answers, a refusal holds nothing
+				c, cancel := context.WithDeadline(actx, time.Unix(1, 0))
+				defer cancel()
+				actx, how = c, " with an expired context"
+				rt.Count("acquires_with_an_ended_context", 1)
+			case 1:
+				c, cancel := context.WithCancel(actx)
+				cancel()
+				actx, how = c, " with a cancelled context"
+				rt.Count("acquires_with_an_ended_context", 1)
+			}
+			l, ok := ly.lim.Acquire(actx)
+			ops = append(ops, fmt.Sprintf("acquire(%q)%s=%v", k, how, ok))
 			if (l != nil) != ok {
 				fail("listener-returned-iff-ok-violated", rt.J{"ok": ok, "listener_nil": l == nil})
 				return
@@ -987,11 +1001,122 @@ func poolCase(t *testing.T, idx int64, r *rand.Rand) {
 	rt.Distinct(fmt.Sprintf("pool|%d|%d|%d", lim, ord, idx))
 }
 
+// simultaneousCompletions: every token of a full limiter (any strategy, partitioned ones with requests spread over their
+// keys) is completed at the same moment from as many goroutines.  Each completion gives back exactly one unit of the
+// strategy total and of its bin: afterwards every count is zero and the full limit is admitted again.
+func simultaneousCompletions(idx int64, r *rand.Rand) {
+	// the partitioned strategies alone, 512 tokens given back by 16 goroutines in tight loops (long overlap of releases)
+	for round := 0; round < 12; round++ {
+		var st interface {
+			core.Strategy
+			BusyCount() int
+		}
+		name := "lookup-direct"
+		if round%2 == 0 {
+			ps := map[string]*strategy.LookupPartition{}
+			for _, k := range []string{"a", "b"} {
+				ps[k] = strategy.NewLookupPartitionWithMetricRegistry(k, 0.25, 1, core.EmptyMetricRegistryInstance)
+			}
+			s, err := strategy.NewLookupPartitionStrategyWithMetricRegistry(ps, nil, 512, core.EmptyMetricRegistryInstance)
+			if err != nil {
+				panic(err)
+			}
+			st = s
+		} else {
+			name = "predicate-direct"
+			var ps []*strategy.PredicatePartition
+			for _, k := range []string{"a", "b", "zz"} {
+				ps = append(ps, strategy.NewPredicatePartitionWithMetricRegistry(k, 0.25, matchers.StringPredicateMatcher(k, false), core.EmptyMetricRegistryInstance))
+			}
+			s, err := strategy.NewPredicatePartitionStrategyWithMetricRegistry(ps, 512, core.EmptyMetricRegistryInstance)
+			if err != nil {
+				panic(err)
+			}
+			st = s
+		}
+		var toks []core.StrategyToken
+		for i := 0; i < 512; i++ {
+			if t, ok := st.TryAcquire(keyCtx([]string{"a", "b", "zz"}[i%3])); ok {
+				toks = append(toks, t)
+			}
+		}
+		const nG = 16
+		var wg sync.WaitGroup
+		var ready atomic.Int32
+		for g := 0; g < nG; g++ {
+			wg.Add(1)
+			go func(g int) {
+				defer wg.Done()
+				ready.Add(1)
+				for ready.Load() < nG {
+					runtime.Gosched()
+				}
+				for i := g; i < len(toks); i += nG {
+					toks[i].Release()
+				}
+			}(g)
+		}
+		wg.Wait()
+		rt.Count("simultaneous_completions", int64(len(toks)))
+		if b := st.BusyCount(); b != 0 {
+			rt.Violation("C02/"+name+"/counts-not-zero-after-simultaneous-completions", idx, rt.J{"strategy_busy": b, "tokens_released_by_16_goroutines": len(toks)})
+			return
+		}
+	}
+	for round := 0; round < 25; round++ {
+		ly := buildLayers(r)
+		var held []core.Listener
+		for i := 0; i < 3*ly.limit+6; i++ {
+			if l, ok := ly.lim.Acquire(keyCtx(ly.keys[r.IntN(len(ly.keys))])); ok {
+				held = append(held, l)
+			}
+		}
+		n := len(held)
+		var wg sync.WaitGroup
+		var ready atomic.Int32
+		for i, l := range held {
+			wg.Add(1)
+			go func(i int, l core.Listener) {
+				defer wg.Done()
+				ready.Add(1)
+				for ready.Load() < int32(n) {
+					runtime.Gosched()
+				}
+				complete(l, i%3)
+			}(i, l)
+		}
+		wg.Wait()
+		rt.Count("simultaneous_completion_rounds", 1)
+		rt.Count("simultaneous_completions", int64(n))
+		bad := rt.J{}
+		if b := ly.busy(); b != 0 {
+			bad["strategy_busy"] = b
+		}
+		if g := ly.lim.VerifInFlight(); g != 0 {
+			bad["limiter_inflight_gauge"] = g
+		}
+		if ly.bin != nil {
+			for _, k := range ly.keys {
+				if b := ly.bin(k); b > 0 {
+					bad["bin_"+k] = b
+				}
+			}
+		}
+		if len(bad) > 0 {
+			bad["stack"], bad["limit"], bad["tokens_completed_at_once"] = ly.name, ly.limit, n
+			rt.Violation("C02/"+ly.name+"/counts-not-zero-after-simultaneous-completions", idx, bad)
+			return
+		}
+	}
+}
+
 func TestCheck(t *testing.T) {
 	rt.Cases(1920, 320000, func(idx int64) {
 		r := rt.CaseRand(2, idx)
 		rt.Case()
 		switch m := idx % 32; {
+		case m == 3:
+			simultaneousCompletions(idx, r)
 		case m == 7:
 			gaugeBursts(idx, r)
 		case m == 27:
